@@ -206,7 +206,7 @@ def run_key(r):
 
 def histories_part(chk):
     rng = chk.rng
-    n = 150 if chk.tier == "quick" else 1500
+    n = 300 if chk.tier == "quick" else 2000
     exprs = []
     nses = 0
     for i in range(n):
